@@ -64,7 +64,7 @@ class Resolve:
                     n0, n1 = self.F.g.nodes[d0], self.F.g.nodes[d1]
                     busy = _busy | {(var, d0), (var, d1)}
                     keep = lambda n: ('var', var) if n.stmt[2] == ('draw',) else self.subst(n.stmt[2], n, busy)
-                    return ('phi', self.subst(b.stmt[1], b, busy), keep(n1), keep(n0))
+                    return ('phi', self.subst(b.stmt[1], b, _busy | {(var, d1)}), keep(n1), keep(n0))
         return ('var', var)
 
     def _if_then(self, d0, d1):
